@@ -8,7 +8,7 @@ CLAIMED = {
         technique="model-based (state-machine) property testing with rapid; differential oracle = raw Go os package on a fresh tmpfs directory; shrinking to a minimal history",
         text=("Generated operation histories are applied to mem.FS, to keyvalue.FS over a plain map store and to os.FS, and step by step to the raw os package; "
               "success, returned data, the whole tree, Stat over the depth-3 path closure and Chtimes-set mtimes are compared after every step. "
-              "Sampled exploration (hundreds of histories in quick, ~18k in thorough), not proof: it finds divergences reachable by short histories over a 3-name alphabet."),
+              "Sampled exploration (hundreds of histories in quick, ~18k in thorough), not proof: it finds divergences reachable by short histories over a 3-name alphabet (per case either {a, ab, b} or {a, <unusual valid name>, b})."),
         note="trusts the Go os package on Linux tmpfs as the oracle; euid 0 so permission enforcement never triggers; known finding C01:readfile-directory is excluded by construction while its probe reproduces",
     ),
     "C02": dict(
@@ -27,12 +27,12 @@ CLAIMED = {
     "C05": dict(
         technique="state-machine property testing with rapid; differential oracle on error values (type, path fields, sentinel set) = raw os package on a twin tmpfs tree; 12 layer stacks as subjects plus the read-only layers cache and tar",
         text=("Every failing FS-level call of generated histories is compared with the os package's error for the same call on a twin tree: concrete type, path fields in the caller's namespace equal to what os names, "
-              "and every sentinel os matches. Subjects: mem, keyvalue/plain store, os.FS under 1-3 Sub roots, mount.FS with 0/1/2 nested mounts, Sub(mem), Sub(Sub(mem)), Sub(mount) at a mount point; cache and tar over a generated source tree (failing reads against os, failing mutations typed and naming the caller's path). Sampled exploration."),
+              "and every sentinel os matches. Per-case name alphabets include unusual valid names (leading/adjacent dots, space, non-ASCII, backslash, upper case). Subjects: mem, keyvalue/plain store, os.FS under 1-3 Sub roots, mount.FS with 0/1/2 nested mounts, Sub(mem), Sub(Sub(mem)), Sub(mount) at a mount point; cache and tar over a generated source tree (failing reads against os, failing mutations typed and naming the caller's path). Sampled exploration."),
         note="Op strings are not compared; for RemoveAll the name passed in is accepted besides the ancestor os names; ErrNotImplemented (unsupported op, e.g. Rename through a generic Sub view) only needs type+path; mount-boundary operations are left to C06",
     ),
     "C04": dict(
         technique="property-based testing with rapid (boundary construction around io/fs.ValidPath + fuzzed strings) and native coverage-guided go fuzzing in the thorough tier; oracle = error class + unchanged snapshots of every constituent FS",
-        text=("For 9 subjects (mem, keyvalue/plain, nested mounts, Sub(mem), Sub(mount), cache, tar, os.FS, Sub over a lenient Open-only FS) in generated start states, every helper is probed with names at the ValidPath boundary, "
+        text=("For 11 subjects (mem, keyvalue/plain, nested mounts, Sub(mem), Sub(mount), cache, tar -- healthy, over a truncated archive, and with a cancelled context --, os.FS, Sub over a lenient Open-only FS) in generated start states, every helper is probed with names at the ValidPath boundary, "
               "fuzzed names and valid odd names; invalid names must give ErrInvalid and leave every constituent file system (and the os directory with its sentinel sibling) unchanged; valid names are never refused as invalid "
               "and backslash/colon are literal name bytes. Thorough adds a 45 s native fuzz campaign (~1M executions) over (subject, helper, position, name bytes)."),
         note="validity oracle is the standard library; 'no OS path reached the kernel' is approximated by directory + sentinel snapshots; ErrNotImplemented accepted where the helper is unsupported for valid names too",
@@ -40,27 +40,27 @@ CLAIMED = {
     "C07": dict(
         technique="twin-world (metamorphic) state-machine property testing with rapid: op(Sub(fs,dir), name) vs op(fs, dir/name) from identical states; whole-state equality of every constituent FS",
         text=("Two identical parents are built from the same generated setup; histories are applied through Sub(parent, dir) in one and directly at dir/name in the other; results, error class/type/paths and the complete state "
-              "of every constituent file system are compared after every step, which also shows that nothing outside dir is read or changed differently. Parents: mem, mount.FS, os.FS, an Open-only FS, a Sub view. Sampled exploration."),
+              "of every constituent file system are compared after every step, which also shows that nothing outside dir is read or changed differently. Parents: mem, mount.FS, os.FS, an Open-only FS, a Sub view; per-case alphabets with unusual valid names (adjacent dots, leading dots, ...). Sampled exploration."),
         note="dir above a mount point is excluded while known finding C07:sub-above-mountpoint reproduces; symlinks not generated; error paths of MkdirAll/RemoveAll and of handle-level fallbacks are compared by class only",
     ),
     "C06": dict(
         technique="twin-world state-machine property testing with rapid against an independent reference router; model-based AddMount sequences; harness-gated concurrent AddMount (plus -race leg); fault enumeration on cross-mount rename",
         text=("Generated mount configurations (0-4 points incl. nested and string-prefix look-alikes) and histories: every op is routed by a harness-side longest-whole-element-prefix router and executed through mount.FS in one world and "
               "directly on the selected file system in the other; results and the snapshots of all constituent file systems must match, Mount() is re-evaluated under sampled table iteration orders, cross-mount renames are judged by a "
-              "before/after predicate, AddMount sequences by a model, concurrent AddMount of one point by a gate that forces the check-then-store window, and a cross-mount rename is repeated with a fault injected at every call index of the destination and source mounts (either it happened or both trees are as before). Sampled exploration; the window forcing is deterministic for the gated call only."),
+              "before/after predicate, AddMount sequences by a model, concurrent AddMount of one point (every caller with its own file system; exactly one wins and ITS file system is the one mounted afterwards) by a gate that forces the check-then-store window, and a cross-mount rename is repeated with a fault injected at every call index of the destination and source mounts (either it happened or both trees are as before). Sampled exploration; the window forcing is deterministic for the gated call only."),
         note="iteration orders of the mount table are sampled; losing an existing destination file when the cross-mount copy fails is known finding C06:cross-rename-fault-loses-existing-destination",
     ),
     "C08": dict(
         technique="property-based testing with rapid (generated states/arguments) + exhaustive enumeration inside each case of all capability subsets (generated mask types) and of every primitive-call fault index; differential oracle = the full-capability FS",
         text=("For each generated (start state, helper call) every subset of the interfaces the helper inspects is enumerated and compared with the full-capability run (result, sentinel class, final snapshot) or must be a clean ErrNotImplemented; "
-              "then every primitive call of that run is failed in turn and the helper must not report success unless the work was verifiably done (a failing close of a written file loses the data). Subjects mem.FS and os.FS; all *File helpers on a bare file. "
+              "then every primitive call of that run is failed in turn and the helper must not report success unless the work was verifiably done (a failing close of a written file loses the data). Subjects mem.FS and os.FS (whose start state may hold a symbolic link; then only subsets exposing Lstat are compared); all *File helpers on a bare file. "
               "The subset and fault-index spaces are exhaustive per case; states/arguments are sampled."),
         note="mem.FS itself uses the fallbacks for helpers it has no method for, so fallback-vs-method differences are only visible on the os.FS leg; RemoveAll of a directory without any Remove is excluded while known finding C08:removeall-dir-without-remove reproduces",
     ),
     "C16": dict(
         technique="property-based testing with rapid over generated directories and page-size sequences; oracle = the generated child set (model) + Stat of each child",
         text=("Generated directories (0-40 children, 200-300 on os.FS, mixed kinds, grandchildren and prefix-named siblings as decoys) on 7 subjects; ReadDir by name is checked for completeness, uniqueness, order and agreement with Stat; "
-              "paged reads on one handle with generated page-size sequences (1, 2, N-1, N, N+1, 10^6, MaxInt32, MaxInt, and 0/-1/MinInt), optionally after activity between Open and the first page (Stat on the handle, a child added or removed), are checked for permutation, no (empty,nil), EOF exactly at the end and n<=0 semantics. Sampled exploration."),
+              "paged reads on one handle with generated page-size sequences (1, 2, N-1, N, N+1, 10^6, MaxInt32, MaxInt, and 0/-1/MinInt), optionally after activity between Open and the first page (Stat on the handle, a child added or removed), some children carrying set-uid/set-gid/sticky bits, are checked for permutation, no (empty,nil), EOF exactly at the end and n<=0 semantics. Sampled exploration."),
         note="directories are not mutated between pages; after a mid-way n<=0 call only error-free completion is asserted (the statement pins nothing more)",
     ),
     "C17": dict(
@@ -77,7 +77,7 @@ CLAIMED = {
     ),
     "C18": dict(
         technique="model-based property testing with rapid against a map model (both transaction implementations); harness-owned interleaving of concurrent transactions by parking them inside handlers; crash tracing for unrecoverable runtime errors",
-        text=("Generated call sequences (Get/GetHandler/Set/SetHandler with succeeding, failing and aborting handlers, Commit, Commit under an already cancelled context, Abort) on the real in-memory transactions (via the verif hook) and on the serial fallback are checked against a map model: "
+        text=("Generated call sequences (Get/GetHandler/Set/SetHandler with succeeding, failing and aborting handlers, Commit, Commit under an already cancelled context, Abort; read-write and read-only modes) on the real in-memory transactions (via the verif hook) and on the serial fallback are checked against a map model: "
               "one result per call in order with matching unique ids, read-your-writes across transactions, handler errors, no effect after abort, store released and equal to the model afterwards. An isolation leg parks 2-6 concurrent transactions "
               "inside handlers and checks that never two are inside and nothing is torn. Sampled exploration; the isolation schedule is owned only at handler granularity."),
         note="a test-binary death (fatal error such as a double unlock) is reported as a violation with the traced history; Commit's return value for an aborted transaction is not asserted",
@@ -104,7 +104,7 @@ CLAIMED = {
     "C12": dict(
         technique="property-based testing with rapid: generated logical trees rendered as tar archives (order, implicit directories, spellings, threshold sizes); model oracle = the logical tree; harness-gated destination calls released in a drawn order (schedule of the background writers)",
         text=("Generated archives are unpacked into the default, an explicit mem.FS, an OpenFile+Chmod+Mkdir-only wrapper or os.FS destination whose calls are released one at a time in a generated order; after Done() the tar FS and the destination must equal the model exactly "
-              "(files: bytes and permission bits; explicit directories: bits; ancestors: kind; nothing else). Separate legs: 85-120 files (more than the small-buffer pool holds) and archives containing one escaping entry. Sampled exploration of inputs and schedules."),
+              "(files: bytes and permission bits; explicit directories, including the root when it is an entry: bits; ancestors: kind; nothing else). Separate legs: 85-120 files (more than the small-buffer pool holds) and archives containing one escaping entry. Sampled exploration of inputs and schedules."),
         note="schedules are owned at destination-call granularity only (what happens inside a destination call is free-running); directories with a later descendant entry are compared by kind only on in-memory destinations while known finding C12:dir-mode-lost-mkdirall-vs-mkdir reproduces (full check remains on os.FS)",
     ),
     "C13": dict(
@@ -117,7 +117,7 @@ CLAIMED = {
     "C15": dict(
         technique="property-based testing with rapid over small concurrent programs; harness-owned cooperative scheduler over the real in-memory store (yield points at every store transaction and blob operation); serializability oracle = set of outcomes of all sequential orders; exhaustive DFS over schedules with <=2 pre-emptions; a completely enumerated family of single-mutator/observer programs; free-running legs incl. the race detector",
         text=("Generated programs (2-3 goroutines x 1-3 operations incl. per-goroutine handle I/O) run under a scheduler the harness owns; every explored interleaving's results + final tree must equal some sequential order's. "
-              "Per program either 12 drawn schedules or every schedule with <=2 pre-emptions; an independence leg confines goroutines to disjoint subtrees; observer legs run ONE mutating operation against read-only threads (stat/readdir/cat) under every <=2-pre-emption schedule (random, and a complete canonical family in the quick tier), so an operation that stops being one step is seen even where two mutators are excluded; free-running legs (hot-file programs, 5 iterations x 20 repetitions, and -race in thorough) look for panics, deadlocks and data races. "
+              "Per program either 12 drawn schedules or every schedule with <=2 pre-emptions; an independence leg confines goroutines to disjoint subtrees; a storm leg repeats generated Truncate/Write/read bodies through several handles on one file on real cores (windows inside one blob operation); observer legs run ONE mutating operation against read-only threads (stat/readdir/cat) under every <=2-pre-emption schedule (random, and a complete canonical family in the quick tier), so an operation that stops being one step is seen even where two mutators are excluded; free-running legs (hot-file programs, 5 iterations x 20 repetitions, and -race in thorough) look for panics, deadlocks and data races. "
               "Bounded: programs are sampled; schedules are exhaustive only up to 2 pre-emptions at transaction/blob-operation granularity."),
         note="cross-thread operation pairs of the 60 listed classes C15:ns:<kinds>:<relation> (operations are multi-transaction: needs a redesign; each class has a recorded witness that its probe replays) are excluded by construction from the serializability legs, all other same-path / ancestor / sibling classes are searched; they remain in the free-running/race legs; in the observer legs only the exactly identified classes C15:obs:* (MkdirAll of >=2 levels, Rename of a directory, a listing racing a rename inside it) are excluded; a data race report is a violation whose schedule cannot be replayed",
     ),
@@ -130,7 +130,7 @@ CLAIMED = {
     "C20": dict(
         technique="mutation of the system under test: generated/enumerated deviant file systems (operation x deviation kind x trigger) run against the real conformance suite in re-executed test binaries; a recording wrapper decides mechanically whether the suite observed the deviation (trace differential vs the reference); ratchet against the deviants rejected at the pinned commit",
         text=("Every deviant of a finite grammar is run against fstest.FS + fstest.File; the calls the suite makes and the results it is handed are recorded per scenario on the deviant and on the reference; a deviant whose recorded behaviour differs must make the suite fail. "
-              "The reference (mem.FS, os.FS) must pass repeatedly at parallelism {1,16}x{1,16} with identical recorded behaviour. Both tiers enumerate the whole grammar (414 deviants), exhaustive for that grammar."),
+              "The reference (mem.FS, os.FS) must pass repeatedly at parallelism {1,16}x{1,16} with identical recorded behaviour. Both tiers enumerate the whole grammar (531 deviants, incl. argument-class triggers and 'weaker error' substitutions), exhaustive for that grammar; the 266 deviants rejected at the pinned commit must stay rejected."),
         note="triggers include argument classes (e.g. Truncate only when shrinking); a deviant rejected at the pinned commit (harness/c20/expected_killed.txt) that no scenario observes any more is a violation C20:unexercised (stricter than the literal statement: 'exercised' is pinned to the pinned commit); survivors with a listed signature (operation:kind) are known findings (mode mask of zero, subset tree assertions, unread counts); any other surviving deviant is a violation; exposure that depends on goroutine scheduling (concurrent scenarios, call-count triggers in shared-FS scenarios) is not counted",
     ),
 }
